@@ -70,11 +70,14 @@ func (c *vCluster) SetNode(_ context.Context, opts *types.SetNodeOptions) (*type
 
 type vStore struct {
 	store.Store
-	expiry chan struct{}
+	expiry                   chan struct{}
+	registered, unregistered int
 }
 
 func (s *vStore) StartEphemeral(context.Context, string, time.Duration) (<-chan struct{}, func(), error) {
-	return s.expiry, func() {}, nil
+	s.expiry = make(chan struct{}) // every registration has its own expiry channel
+	s.registered++
+	return s.expiry, func() { s.unregistered++ }, nil
 }
 
 // VerifSelfmon. arg: nodes=<n>,steps=<events>
@@ -88,7 +91,8 @@ func VerifSelfmon(arg string) {
 		cl.alive[n] = true
 	}
 	cl.slow = vBool("set_node_outlasts_the_global_timeout")
-	w := &NodeStatusWatcher{ID: 1, cluster: cl, store: &vStore{expiry: make(chan struct{})}}
+	st := &vStore{}
+	w := &NodeStatusWatcher{ID: 1, cluster: cl, store: st}
 	w.config.GlobalTimeout = time.Minute
 	if !vIsSymbolic() {
 		w.config.GlobalTimeout = 30 * time.Millisecond
@@ -119,7 +123,7 @@ func VerifSelfmon(arg string) {
 		start()
 	}
 	for step := 0; step < steps; step++ {
-		ev := vChoose("event_"+string(rune('1'+step)), 4)
+		ev := vChoose("event_"+string(rune('1'+step)), 5)
 		node := names[0]
 		if nNodes > 1 {
 			node = names[vChoose("node_of_event_"+string(rune('1'+step)), nNodes)]
@@ -151,12 +155,20 @@ func VerifSelfmon(arg string) {
 				continue
 			}
 			start()
-		case 3: // the active term ends (the status stream closes, e.g. the store connection was lost)
+		case 3, 4: // the active term ends: the status stream closes (3), or the watcher loses the active key (4)
 			if !started || terms >= 2 {
 				continue
 			}
 			vDrain()
-			close(cl.stream)
+			if ev == 3 {
+				close(cl.stream)
+			} else {
+				close(st.expiry)
+				vCover("active-key-lost", true)
+			}
+			vDrain()
+			// a watcher that is no longer active stops monitoring and gives the key back
+			vAssert("C28/inactive-watcher-stops-and-unregisters", st.unregistered == st.registered)
 			started = false
 			vCover("term-ended", true)
 			// lapses seen while active have been handled; what lapses from now on is found by the next scan
